@@ -31,6 +31,8 @@ type a64Rec struct {
 	Has   bool   `json:"has"`  // a PC-relative argument is present
 	Disp  int    `json:"disp"` // its value (ADRP: in pages of 4096)
 	Panic string `json:"panic"`
+	// Changed: the same word decoded again later (other words decoded in between, other order) gave another answer
+	Changed bool `json:"changed"`
 }
 
 func decodeWord(word uint32) (r a64Rec) {
@@ -142,7 +144,29 @@ func TestVerifA64Sweep(t *testing.T) {
 		}
 		return out
 	}
-	emit := func(w uint32) { enc.Encode(decodeWord(w)) }
+	var firstW []uint32
+	var firstR []a64Rec
+	emit := func(w uint32) {
+		r := decodeWord(w)
+		enc.Encode(r)
+		if len(firstW) < 400000 {
+			firstW, firstR = append(firstW, w), append(firstR, r)
+		}
+	}
+	// Decode must be a function of the word alone: at the end every recorded word is decoded again in reverse order,
+	// each time right after a word that differs from it only in its top bits / only in its low bits
+	defer func() {
+		for i := len(firstW) - 1; i >= 0; i-- {
+			w := firstW[i]
+			decodeWord(w ^ 0x80000000)
+			decodeWord(w ^ 0x10000000)
+			decodeWord(w ^ 1)
+			if r := decodeWord(w); r != firstR[i] {
+				r.Ev, r.Changed = "word", true
+				enc.Encode(r)
+			}
+		}
+	}()
 	// B / BL: imm26
 	for _, op := range []uint32{0x14000000, 0x94000000} {
 		for _, v := range imms(26) {
